@@ -253,7 +253,7 @@ OWN = {
     "C07": {"gsequ", "laqgs", "colorder", "gstrf", "gstrs", "gsrfs", "X:=", "B*=", "create_AA", "pivotgrowth", "langs", "gscon", "equed:="},
     "C11": {"gsequ", "laqgs", "B*=", "X:=", "equed:=", "A-store"},
     "C12": {"langs", "gscon", "pivotgrowth", "info:="},
-    "C13": {"gsrfs", "gstrs"},
+    "C13": {"gsrfs", "gstrs", "X:=", "B*="},
     "C14": {"queryspace", "total_needed:=", "pthread_create", "gstrf"},
     "C06": {"pivotgrowth", "gstrs", "gsrfs", "gscon", "langs", "X:=", "B*="},
     "C08": {"A-store", "LUperm-store", "gstrf", "colorder", "gsequ", "laqgs"},
